@@ -42,7 +42,7 @@ main(void)
 	size_t n = ND_SIZE();
 	int err = ND_INT();
 #ifdef NATIVE_REPLAY
-	memset(&c, 0, sizeof c);
+	NATIVE_FILL(&c, sizeof c);
 #endif
 	ASSUME(n <= sizeof chunk);
 	c.err = err;
